@@ -6,7 +6,8 @@
                     transmission (tx.valid) carries it on tx_pid_toggle; a retry therefore repeats the PID.
      OUT endpoints  c14o_mon: the expected_data_toggle register is cleared by a strobe naming this OUT endpoint, flipped when the
                     device ACKs a data packet carrying the expected PID, unchanged otherwise; a repeated PID is ACKed.
-     decode         c14d_mon: the strobe is (1, wIndex[7], wIndex[3:0]) exactly at the host's ACK of a CLEAR_FEATURE request.
+     decode         c14d_mon: the strobe is (1, wIndex[7], wIndex[3:0]) exactly at a host ACK while the most recent SETUP packet is
+                    a not yet completed CLEAR_FEATURE(ENDPOINT_HALT, recipient endpoint); all-zero otherwise.
    Proved here: the IN rule for the USBStreamInEndpoint model of Model/InXfer.v, for EVERY max_packet_size and endpoint number
    and every input history.  The OUT rule and the decode are proved against the netlists regenerated from /repo at the tie
    configurations of props/C14.py (kernel-checked reachability, any trace length) and checked on simulator traces at
@@ -81,4 +82,14 @@ Example C14_out_rule_example :
   first_bad (c14o_mon 1) 0 0 [(ow true true 0 0, 1); (ow true true 0 0, 1 + 4); (ow false false 0 5, 4); (ow false false 0 0, 0)]
   = None /\
   first_bad (c14o_mon 1) 0 0 [(ow true true 0 0, 1); (ow true true 0 0, 1)] = Some 1%N.
+Proof. vm_compute. split; reflexivity. Qed.
+
+(* the decode rule on a hand-made I/O trace: SETUP CLEAR_FEATURE(ENDPOINT_HALT) for endpoint 0x81, host ACK -> strobe
+   (enable, IN, number 1) = 1 + 2 + 4; a second ACK finds nothing pending; a CLEAR_FEATURE with selector 1 never fires *)
+Definition dw (received ack : bool) (value index : N) : N :=
+  b2n received + 2 * b2n ack + 256 * 2 + 8192 * 1 + 2097152 * value + 137438953472 * index.
+Example C14_decode_rule_example :
+  first_bad c14d_mon 0 0 [(dw true false 0 0x81, 0); (dw false true 0 0x81, 7); (dw false true 0 0x81, 0);
+                          (dw true false 1 0x81, 0); (dw false true 1 0x81, 0)] = None /\
+  first_bad c14d_mon 0 0 [(dw true false 0 0x81, 0); (dw false true 0 0x81, 5)] = Some 1%N.
 Proof. vm_compute. split; reflexivity. Qed.
